@@ -4,7 +4,7 @@
    match itself, so the only slice the loop can match is the first character. *)
 From Coq Require Import ZArith List Bool Lia.
 From PTK Require Import Lib.Sx Lib.Py Lib.C03_Str Gen.C03_AnsiSequences Model.C03_Vt100Parser
-  Proofs.C03_Table Proofs.C03_Process Proofs.C03_Lossless.
+  Model.C03_Break Proofs.C03_Table Proofs.C03_Process Proofs.C03_Lossless.
 Import ListNotations.
 Open Scope Z_scope.
 
@@ -189,15 +189,7 @@ Qed.
 (* ---------------------------------------------------------------------- *)
 (* the loop with a break *)
 
-Fixpoint match_loop_brk (i : nat) (st : pstate) : pstate * bool :=
-  match i with
-  | O => (st, false)
-  | S i' =>
-      match get_match (firstn i (prefix st)) with
-      | Some ks => (set_prefix (skipn i (prefix st)) (call_handler ks (firstn i (prefix st)) st), true)
-      | None => match_loop_brk i' st
-      end
-  end.
+(* [match_loop_brk] is defined in Model/C03_Break.v *)
 
 Lemma match_loop_S i st found :
   match_loop (S i) st found =
